@@ -510,6 +510,87 @@ func c09Bytes(r *run.Run) {
 		})
 }
 
+// c09TableLayouts: cmap tables as other producers lay them out: the subtables stored in any order
+// (not that of the encoding records), packed or with gaps, shared between records.
+func c09TableLayouts(r *run.Run) {
+	keys := []cmap.Key{{PlatformID: 0, EncodingID: 3}, {PlatformID: 1, EncodingID: 0}, {PlatformID: 3, EncodingID: 1}}
+	var f0 cmap.Format0
+	f0.Data[65] = 4
+	subs := [][]byte{cmap.Format4{65: 1, 66: 2}.Encode(0), f0.Encode(0), cmap.Format4{65: 3, 0x2000: 9}.Encode(0)}
+	perms := [][]int{{0, 1, 2}, {0, 2, 1}, {1, 0, 2}, {1, 2, 0}, {2, 0, 1}, {2, 1, 0}}
+	r.Explore(explore.Config{Name: "C09.table-layouts"},
+		"cmap tables assembled by hand: 3 encoding records (Unicode, Macintosh, Windows) each pointing at one of 3 subtables (all 27 assignments, shared subtables included; the Macintosh record at a format 0 or a format 4 subtable), the subtables stored in each of the 6 orders, packed or 2 bytes apart: Decode accepts the table, every key gets the bytes of its subtable, records sharing a subtable stay shared on re-encoding",
+		func(c *explore.Ctx) {
+			var pick [3]int
+			for i := range keys {
+				pick[i] = c.Choose(3, fmt.Sprintf("subtable of record %d", i))
+			}
+			perm := perms[c.Choose(len(perms), "storage order")]
+			gap := 2 * c.Choose(2, "gap")
+			used := map[int]bool{}
+			for _, k := range pick {
+				used[k] = true
+			}
+			hdr := 4 + 8*len(keys)
+			pos := hdr
+			offs := map[int]int{}
+			var body []byte
+			for _, k := range perm {
+				if !used[k] {
+					continue
+				}
+				offs[k] = pos
+				body = append(body, subs[k]...)
+				body = append(body, make([]byte, gap)...)
+				pos += len(subs[k]) + gap
+			}
+			data := be16(0, len(keys))
+			for i, key := range keys {
+				data = append(data, be16(int(key.PlatformID), int(key.EncodingID))...)
+				data = append(data, be32(offs[pick[i]])...)
+			}
+			data = append(data, body...)
+			desc := fmt.Sprintf("records -> subtables %v, storage order %v, gap %d", pick, perm, gap)
+			c.Sample(func() any { return desc })
+			c.Outcome(desc)
+			t, err := cmap.Decode(data)
+			if err != nil {
+				c.Fail("C09.table", "layouts / decode", "cmap.Decode rejects a well-formed table: %v (%s)", err, desc)
+				return
+			}
+			c.Nontrivial()
+			if len(t) != len(keys) {
+				c.Fail("C09.table", "layouts / keys", "%d keys come back as %d (%s)", len(keys), len(t), desc)
+				return
+			}
+			for i, key := range keys {
+				if !bytes.Equal(t[key], subs[pick[i]]) {
+					c.Fail("C09.table", "layouts / bytes", "key %v gets %d bytes that are not its subtable (%s)", key, len(t[key]), desc)
+					return
+				}
+			}
+			back, err := cmap.Decode(t.Encode())
+			if err != nil || len(back) != len(keys) {
+				c.Fail("C09.table", "layouts / re-encode", "the decoded table does not survive Encode/Decode: %v (%s)", err, desc)
+				return
+			}
+			for i, key := range keys {
+				if !bytes.Equal(back[key], subs[pick[i]]) {
+					c.Fail("C09.table", "layouts / re-encode", "key %v changes on re-encoding (%s)", key, desc)
+					return
+				}
+			}
+			// sharing: the re-encoded table stores every distinct subtable once
+			want := 4 + 8*len(keys)
+			for k := range used {
+				want += len(subs[k])
+			}
+			if got := len(t.Encode()); got != want {
+				c.Fail("C09.table", "layouts / sharing", "the re-encoded table has %d bytes, %d with every distinct subtable stored once (%s)", got, want, desc)
+			}
+		})
+}
+
 func c09Table(r *run.Run) {
 	// the last two: full-Unicode (32-bit header) subtables under the Macintosh platform that differ in the language only
 	keys := []cmap.Key{{0, 3, 0}, {0, 4, 0}, {1, 0, 0}, {1, 0, 5}, {3, 1, 0}, {3, 10, 0}, {3, 0, 0}, {1, 0, 7}, {1, 0, 9}}
@@ -616,5 +697,6 @@ func init() {
 		c09Format12(r)
 		c09Bytes(r)
 		c09Table(r)
+		c09TableLayouts(r)
 	})
 }
